@@ -380,7 +380,7 @@ class NpProxy(object):
 
     def __getattr__(self, name):
         v = getattr(np, name)
-        if callable(v) and not isinstance(v, type):
+        if callable(v) and not isinstance(v, (type, np.ufunc)):
             return _wrapped(v)
         return v
 
